@@ -49,6 +49,11 @@ CHECKS = {
    text="The TYPE[NUMBER]/RANGE and TYPE[BOOLEAN] fragments are read from the live compiler, parsed by the reference GBNF reader, translated to regular languages and shown by z3 (all derivations, any length) to be tokenised by the lexer model as exactly one NUMBER / BOOLEAN token (no earlier pattern fires, own pattern matches the whole text). For CONST and ENUM, CrossHair shows on symbolic constants (str <= 2 chars of any character, ints, bool, null; alone or with REQ/OPT) that the literal is exactly the canonical emission of the constant and that the chain accepts the constant, so reading the generated text back (C04) validates. The DATE/ISO8601 clause and the rule's leading ws are listed findings, re-confirmed by witnesses on every run.",
    note="Relies on C04 for 'canonical scalar text reads back as the scalar' and on C12's literal lemma; value text = derivation of the field's fragment; REGEX-decided fields are outside the property.",
    ref="DESIGN.md §4 C13"),
+ "C14": dict(
+   technique="CrossHair-driven execution of the real projector and eject converters over solver-indexed documents; leaf-set oracle from the source model",
+   text="projector.project/_filter_fields and the eject converters (_ast_to_dict, _convert_block, _convert_value, _ast_to_markdown, _block_to_markdown) run on a skeleton with a top-level assignment, nested blocks, a section marker, list / inline-map / literal-zone / holographic / null values and META, whose six key sites are chosen by the solver from one key of each keep-set and a neutral key (all 3^6 combinations) for each of the five mode strings. On every path: projected leaves are a subset of the source's (path, value) leaves, canonical/authoring keep all of them with lossy=false, anything omitted implies lossy=true, the keep-sets keep exactly the subtrees of their keys, and the dict (JSON/YAML) and Markdown views hold the same leaves as the filtered AST.",
+   note="Pool-indexed (finite, stated) rather than fully symbolic keys because the filter hashes keys; JSON/YAML text dumping and the OCTAVE text of the projection (emit, C01/C02) are not re-read; CLI `octave eject` has its own older converter twins (not claimed); duplicate sibling keys: listed finding.",
+   ref="DESIGN.md §4 C14"),
 }
 NOT_APPLICABLE = {
  "C06": "quantifies over interpreter configurations (PYTHONHASHSEED, locale, cwd, process boundaries, task interleavings); symbolic execution runs inside one configuration and cannot make these symbolic (DESIGN.md §4 C06)",
